@@ -158,12 +158,13 @@ func TestVerifC09Linearizability(t *testing.T) {
 							var rp, ri int
 							ok := to != nil
 							if ok {
+								toDecoy, toID := vTimeoutOf(to, idx)
 								for pi := range phantoms {
-									if phantoms[pi].String() == to.decoy {
+									if phantoms[pi].String() == toDecoy {
 										rp = pi
 									}
 								}
-								ri = idOf[fmt.Sprint(rp, "/", to.identifier)]
+								ri = idOf[fmt.Sprint(rp, "/", toID)]
 							}
 							rd.m.RUnlock()
 							if !ok {
